@@ -431,8 +431,24 @@ func scenC06(g *Gen, dir string) ([]*Op, func(e *Env, i int, op *Op, obs []strin
 	ops = append(ops, &Op{Kind: "sign", S: s}, factsOp(), &Op{Kind: "obs", Inv: !relocated})
 	verIdx := len(ops)
 	ops = append(ops, &Op{Kind: "verify", V: v})
+	ver6 := -1
+	if groups != nil && len(v.Groups) == 0 && len(v.Objects) == 0 && r.Chance(1, 4) {
+		// the same protected view under other numbers: a whole group's object IDs shifted together
+		// (links are protected as written and stay), or the group renumbered
+		gid := pick(r, sortedGroups(groups))
+		if r.Chance(1, 2) {
+			ops = append(ops, &Op{Kind: "patch", Raw: []string{"renamegroup", fmt.Sprint(gid), fmt.Sprint(40 + r.Intn(5))}}, factsOp())
+			g.count("post:group-renamed")
+		} else {
+			ops = append(ops, &Op{Kind: "patch", Raw: []string{"shiftgroup", fmt.Sprint(gid), fmt.Sprint(200 + r.Intn(9))}}, factsOp())
+			g.count("post:group-ids-shifted")
+		}
+		ver6 = len(ops)
+		ops = append(ops, &Op{Kind: "verify", V: v})
+		covered = nil
+	}
 	ver5 := -1
-	if groups != nil && r.Chance(1, 3) {
+	if groups != nil && ver6 < 0 && r.Chance(1, 3) {
 		// another image presenting the same protected view: two objects exchange table slots
 		if sw := g.swapSlotsOp(groups); sw != nil {
 			ops = append(ops, sw, factsOp())
@@ -494,9 +510,10 @@ func scenC06(g *Gen, dir string) ([]*Op, func(e *Env, i int, op *Op, obs []strin
 				return &Violation{Prop: "C06", Key: "C06:sign-shape", What: bad, Op: i}
 			}
 		}
-		if i == verIdx || i == ver2 || i == ver3 || i == ver4 || i == ver5 {
+		if i == verIdx || i == ver2 || i == ver3 || i == ver4 || i == ver5 || i == ver6 {
 			if len(obs) == 0 || !strings.HasPrefix(obs[0], "v ok") {
 				where := map[int]string{verIdx: "on the signing handle", ver2: "after reload", ver3: "after co-signing", ver4: "after adding an object to another group",
+					ver6: "on an image with the same protected view under other numbers (a group's IDs shifted together / the group renumbered)",
 					ver5: "on an image with the same protected view whose objects occupy other table slots"}[i]
 				return &Violation{Prop: "C06", Key: "C06:verify-failed", What: "verification of what was signed failed " + where + ": " + strings.Join(obs, " / "), Op: i}
 			}
@@ -831,6 +848,67 @@ func scenC04(g *Gen, dir string) ([]*Op, func(e *Env, i int, op *Op, obs []strin
 	return ops, check
 }
 
+// tableSlot is what the structured table edits need to know about one descriptor slot.
+type tableSlot struct {
+	o          int // byte offset of the slot
+	used, sig  bool
+	id, gid    uint32
+	link       uint32
+	off, size  int64
+}
+
+func parseTable(b []byte, total int) []tableSlot {
+	var out []tableSlot
+	for i := 0; i < total; i++ {
+		o := 4096 + 585*i
+		if o+585 > len(b) {
+			break
+		}
+		le32 := func(p int) uint32 { return uint32(b[p]) | uint32(b[p+1])<<8 | uint32(b[p+2])<<16 | uint32(b[p+3])<<24 }
+		le64 := func(p int) int64 { return int64(le32(p)) | int64(le32(p+4))<<32 }
+		out = append(out, tableSlot{o: o, used: b[o+4] != 0, sig: b[o] == 0x05 && b[o+1] == 0x40, id: le32(o + 5), gid: le32(o + 9),
+			link: le32(o + 13), off: le64(o + 17), size: le64(o + 25)})
+	}
+	return out
+}
+
+func put32(v uint32) []byte { return []byte{byte(v), byte(v >> 8), byte(v >> 16), byte(v >> 24)} }
+
+// shiftGroupSites: every member of raw group gid gets its ID moved by k (the relative positions
+// inside the group — what a signature protects — stay); withLinks also moves the members' links to
+// data objects by k (which changes what they point at: protected).
+func shiftGroupSites(b []byte, total int, gid uint32, k uint32, withLinks bool) []PatchSite {
+	var sites []PatchSite
+	for _, t := range parseTable(b, total) {
+		if !t.used || t.gid != gid {
+			continue
+		}
+		sites = append(sites, PatchSite{Off: int64(t.o + 5), B: put32(t.id + k)})
+		if withLinks && t.link != 0 && t.link&0xf0000000 != 0xf0000000 {
+			sites = append(sites, PatchSite{Off: int64(t.o + 13), B: put32(t.link + k)})
+		}
+	}
+	return sites
+}
+
+// renameGroupSites: raw group gid becomes newGid everywhere: members and the links of the
+// signatures (and anything else) linked to the group.
+func renameGroupSites(b []byte, total int, gid, newGid uint32) []PatchSite {
+	var sites []PatchSite
+	for _, t := range parseTable(b, total) {
+		if !t.used {
+			continue
+		}
+		if t.gid == gid {
+			sites = append(sites, PatchSite{Off: int64(t.o + 9), B: put32(newGid)})
+		}
+		if t.link == gid { // group links carry the same flag nibble as raw group ids
+			sites = append(sites, PatchSite{Off: int64(t.o + 13), B: put32(newGid)})
+		}
+	}
+	return sites
+}
+
 // fillPatch chooses tamper sites for a C04/C16 scenario once the file bytes are known.
 func fillPatch(g *Gen, op *Op, b []byte) {
 	r := g.r
@@ -943,6 +1021,53 @@ func fillPatch(g *Gen, op *Op, b []byte) {
 		}
 		op.Sites = []PatchSite{{Off: base + field.off, B: val}}
 		g.count("tamper:field-rewrite")
+	case mode == 9 && r.Chance(1, 3): // a second descriptor with a signed object's ID, pointing at other bytes
+		ts := parseTable(b, total)
+		var a, f, other *tableSlot
+		for i := range ts {
+			t := &ts[i]
+			switch {
+			case t.used && !t.sig && t.size > 0 && a == nil && r.Chance(1, 2):
+				a = t
+			case !t.used && f == nil:
+				f = t
+			}
+		}
+		for i := range ts {
+			t := &ts[i]
+			if a != nil && t.used && t.o != a.o && t.size >= a.size {
+				other = t
+			}
+		}
+		if a == nil || f == nil {
+			op.Sites = []PatchSite{flip(r.Intn(128))}
+			g.count("tamper:header-bit")
+			break
+		}
+		cp := append([]byte(nil), b[a.o:a.o+585]...)
+		if other != nil {
+			no := other.off
+			for k := 0; k < 8; k++ {
+				cp[17+k] = byte(no >> (8 * k))
+			}
+		}
+		op.Sites = []PatchSite{{Off: int64(f.o), B: cp}}
+		g.count("tamper:duplicate-descriptor-redirected")
+	case mode == 9 && r.Chance(1, 2): // a whole group renumbered, optionally with its object links
+		ts := parseTable(b, total)
+		var gids []uint32
+		for _, t := range ts {
+			if t.used && !t.sig && t.gid != 0 {
+				gids = append(gids, t.gid)
+			}
+		}
+		if len(gids) == 0 {
+			op.Sites = []PatchSite{flip(r.Intn(128))}
+			break
+		}
+		withLinks := r.Chance(1, 2)
+		op.Sites = shiftGroupSites(b, total, pick(r, gids), uint32(100+r.Intn(5)), withLinks)
+		g.count(fmt.Sprintf("tamper:group-ids-shifted links=%v", withLinks))
 	case mode == 9 && r.Chance(1, 2): // set the group flag nibble of a link, keeping its low bits
 		slot := r.Intn(total)
 		for k := 0; k < total; k++ { // prefer a slot that has a link
@@ -1016,6 +1141,11 @@ func scenC07(g *Gen, dir string) ([]*Op, func(e *Env, i int, op *Op, obs []strin
 	case 2: // unrecognised signature format
 		ops = append(ops, &Op{Kind: "add", T: TOpt{Kind: "det"}, DI: sigObjectDI(pick(r, [][]byte{[]byte("not a signature"), {}, []byte("{}"), []byte("-----BEGIN PGP SIGNED MESSAGE-----\n")}), 1, 0, 1, nil, 0)})
 		g.count("variant:unrecognised-format")
+	case 3: // a genuine PGP signature packet transplanted onto other (equivalent-looking) metadata
+		if s.PGP >= 0 {
+			ops = append(ops, &Op{Kind: "transplant", S: SOpts{Groups: []uint32{1}}, FP: u.PGP[s.PGP].PrimaryKey.Fingerprint})
+			g.count("variant:signature-packet-transplant")
+		}
 	}
 	// trusted set: disjoint, overlapping, superset, empty, scheme missing
 	var trust []int
@@ -1081,6 +1211,41 @@ func scenC07(g *Gen, dir string) ([]*Op, func(e *Env, i int, op *Op, obs []strin
 				fmt.Sscan(fieldOf(l, "id"), &id)
 				facts[id] = l
 			}
+		}
+		// never skipped: every signature object linked to a group the request covers was judged
+		reported := map[uint32]bool{}
+		for _, l := range obs[1:] {
+			var sid uint32
+			fmt.Sscan(fieldOf(l, "sig"), &sid)
+			reported[sid] = true
+		}
+		taskGroups := map[uint32]bool{}
+		for _, gid := range v.Groups {
+			taskGroups[gid] = true
+		}
+		e.f.WithDescriptors(func(d sif.Descriptor) bool {
+			for _, id := range v.Objects {
+				if d.ID() == id {
+					taskGroups[d.GroupID()] = true
+				}
+			}
+			if len(v.Groups) == 0 && len(v.Objects) == 0 && d.GroupID() != 0 && d.DataType() != sif.DataSignature {
+				taskGroups[d.GroupID()] = true
+			}
+			return false
+		})
+		var skipped uint32
+		e.f.WithDescriptors(func(d sif.Descriptor) bool {
+			if l, isG := d.LinkedID(); d.DataType() == sif.DataSignature && isG && taskGroups[l] && !reported[d.ID()] {
+				plain, _ := hex.DecodeString(strings.ReplaceAll(fieldOf(facts[d.ID()], "plain"), "-", ""))
+				if !(fieldOf(facts[d.ID()], "cs") == "1" && bytes.HasPrefix(plain, []byte("SIFHASH:\n"))) {
+					skipped = d.ID()
+				}
+			}
+			return false
+		})
+		if skipped != 0 {
+			return &Violation{Prop: "C07", Key: "C07:signature-skipped", What: fmt.Sprintf("verification succeeded without judging signature object %d, which is linked to a group the request covers", skipped), Op: i}
 		}
 		for _, l := range obs[1:] {
 			var sid uint32
@@ -1433,12 +1598,26 @@ func scenC17(g *Gen, dir string) ([]*Op, func(e *Env, i int, op *Op, obs []strin
 			ops = append(ops, &Op{Kind: "sign", S: SOpts{PGP: -1, DSSE: []int{100 + r.Intn(len(u.DSSE))}, Groups: []uint32{gid}, T: TOpt{Kind: "det"}}})
 		}
 	}
+	// sometimes a group also carries a legacy-format signature by somebody else: listings made for
+	// current-format tasks must not count it (and legacy listings must not count current ones)
+	if r.Chance(1, 4) {
+		gid := pick(r, gs)
+		ent := r.Intn(len(u.PGP))
+		ops = append(ops, &Op{Kind: "add", T: TOpt{Kind: "det"}, DI: sigObjectDI(legacyBlob(ent, []byte("whatever the group held"), crypto.SHA256), gid, 0, 1, u.PGP[ent].PrimaryKey.Fingerprint, 0)})
+		g.count("variant:legacy-signature-on-a-group")
+	}
 	// sometimes a signature descriptor names another entity than the one that signed
 	forged := false
 	if r.Chance(1, 3) {
 		gid := pick(r, gs)
 		ent := r.Intn(len(u.PGP))
 		other := (ent + 1 + r.Intn(len(u.PGP)-1)) % len(u.PGP)
+		if r.Chance(1, 2) {
+			// … next to a truthful signature by the same entity on the same group
+			ops = append(ops, &Op{Kind: "sign", S: SOpts{PGP: ent, Groups: []uint32{gid}, T: TOpt{Kind: "det"}, NoSalt: true}})
+			signersOf[gid] = append(signersOf[gid], ent)
+			g.count("variant:truthful-and-mislabelled-by-one-key")
+		}
 		// sign, then re-add the signature bytes under a descriptor naming `other`
 		ops = append(ops, &Op{Kind: "resign", S: SOpts{PGP: ent, Groups: []uint32{gid}, T: TOpt{Kind: "det"}, NoSalt: true}, FP: u.PGP[other].PrimaryKey.Fingerprint})
 		signersOf[gid] = append(signersOf[gid], other)
@@ -1606,6 +1785,20 @@ func runInteg(prop, dir string, seed uint64) (*Case, []*Violation, map[string]in
 			if x+585 <= len(b) && y+585 <= len(b) {
 				cp.Sites = []PatchSite{{Off: int64(x), B: append([]byte(nil), b[y:y+585]...)}, {Off: int64(y), B: append([]byte(nil), b[x:x+585]...)}}
 			}
+		}
+		if cp.Kind == "patch" && len(cp.Sites) == 0 && len(cp.Raw) == 3 && cp.Raw[0] == "shiftgroup" && e.f != nil {
+			var gid, k uint32
+			fmt.Sscan(cp.Raw[1], &gid)
+			fmt.Sscan(cp.Raw[2], &k)
+			cp.Sites = shiftGroupSites(e.storeBytes(), int(e.f.DescriptorsTotal()), gid|0xf0000000, k, false)
+			cp.Raw = nil
+		}
+		if cp.Kind == "patch" && len(cp.Sites) == 0 && len(cp.Raw) == 3 && cp.Raw[0] == "renamegroup" && e.f != nil {
+			var gid, ng uint32
+			fmt.Sscan(cp.Raw[1], &gid)
+			fmt.Sscan(cp.Raw[2], &ng)
+			cp.Sites = renameGroupSites(e.storeBytes(), int(e.f.DescriptorsTotal()), gid|0xf0000000, ng|0xf0000000)
+			cp.Raw = nil
 		}
 		if cp.Kind == "patch" && len(cp.Sites) == 0 && len(cp.SwapSlots) == 0 && len(cp.CopySlot) == 0 && e.f != nil {
 			fillPatch(g, &cp, e.storeBytes())
